@@ -249,9 +249,17 @@ func runOci(mode string, seed int64, tier string, sc *Script) map[string]any {
 		cases, steps = 2500, 60
 	}
 	ops := 0
+	corpus := ociCorpus()
+	if mode == "C06" {
+		corpus = nil // (GC and the cascade are not part of the C06 histories)
+	}
 	for ci := 0; ci < cases; ci++ {
 		u := GenDAG(rng, GenCfg{Blobs: 2 + rng.Intn(3), Manifests: 2 + rng.Intn(6), Subjects: true, Indexes: true,
 			NoOctet: true, EmptyBlob: rng.Intn(3) == 0})
+		var forced []forcedOp
+		if ci < len(corpus) {
+			u, forced = corpus[ci].u, corpus[ci].ops
+		}
 		autosave, autogc := 1, 0
 		switch mode {
 		case "C08":
@@ -264,6 +272,9 @@ func runOci(mode string, seed int64, tier string, sc *Script) map[string]any {
 			}
 		case "C07":
 			autogc = rng.Intn(2)
+		}
+		if forced != nil {
+			autosave, autogc = 1, 1
 		}
 		// operation mix: C08/C09/C07 lean towards tags, GC and reopening
 		gcLo, reopenLo := 90, 95
@@ -333,6 +344,21 @@ func runOci(mode string, seed int64, tier string, sc *Script) map[string]any {
 			n := rng.Intn(len(u.Nodes))
 			node := u.Nodes[n]
 			r := rng.Intn(100)
+			forcedRef, forcedAnn, plainGC := "", 0, false
+			if step < len(forced) {
+				f := forced[step]
+				n, node = f.n, u.Nodes[f.n]
+				switch f.op {
+				case "push":
+					r = 0
+				case "tag":
+					r, forcedRef, forcedAnn = 30, f.ref, f.ann
+				case "delete":
+					r = 74
+				case "gc":
+					r, plainGC = gcLo, true
+				}
+			}
 			switch {
 			case r < 30:
 				err := c.store.Push(ctx, node.Desc, bytes.NewReader(node.Bytes))
@@ -340,16 +366,19 @@ func runOci(mode string, seed int64, tier string, sc *Script) map[string]any {
 				sc.Count("op:push")
 			case r < 45:
 				ann := rng.Intn(3)
-				d := node.Desc
-				d.Annotations = annOf(n, ann)
 				ref := randRef()
 				if strings.HasPrefix(ref, "d") && ref != fmt.Sprintf("d%d", n) {
 					ref = fmt.Sprintf("t%d", rng.Intn(4)) // a reference is never another node's digest
 				}
+				if forcedRef != "" {
+					ref, ann = forcedRef, forcedAnn
+				}
+				d := node.Desc
+				d.Annotations = annOf(n, ann)
 				err := c.store.Tag(ctx, d, c.refString(ref))
 				sc.Op(ociErr(err), "o tag %d ann=%d ref=%s", n, ann, ref)
 				sc.Count("op:tag")
-				if err == nil && rng.Intn(4) == 0 {
+				if err == nil && forcedRef == "" && rng.Intn(4) == 0 {
 					// the same content under the same name again, with other annotations
 					ann2 := (ann + 1 + rng.Intn(2)) % 3
 					d2 := node.Desc
@@ -359,7 +388,7 @@ func runOci(mode string, seed int64, tier string, sc *Script) map[string]any {
 					sc.Count("op:retag-other-annotations")
 				}
 				// the same descriptor value under further names
-				for rng.Intn(3) == 0 {
+				for forcedRef == "" && rng.Intn(3) == 0 {
 					ref2 := fmt.Sprintf("t%d", rng.Intn(4))
 					err := c.store.Tag(ctx, d, c.refString(ref2))
 					sc.Op(ociErr(err), "o tag %d ann=%d ref=%s", n, ann, ref2)
@@ -430,7 +459,7 @@ func runOci(mode string, seed int64, tier string, sc *Script) map[string]any {
 					}
 					sc.Op("ok", "o saveindex")
 				}
-				if rng.Intn(4) == 0 {
+				if !plainGC && rng.Intn(4) == 0 {
 					// a GC that fails must change nothing: either its context is already
 					// cancelled, or a named manifest cannot be read while the index is rebuilt
 					cctx, cancel := context.WithCancel(ctx)
@@ -716,4 +745,60 @@ func (c *ociCase) foreignRewrite(rng *rand.Rand, annOf func(n, ann int) map[stri
 	c.sc.Op("ok", "o foreign keep=%s entries=%s", fmtSet(ks), strings.Join(entries, ","))
 	c.sc.Count("op:foreign-index")
 	return true
+}
+
+// forcedOp is one scripted step at the head of a history.
+type forcedOp struct {
+	op  string // push | tag | delete | gc
+	n   int
+	ref string
+	ann int
+}
+
+type ociCorpusCase struct {
+	u   *Universe
+	ops []forcedOp
+}
+
+// ociCorpus: histories that every run starts with (shapes the random generator reaches only
+// now and then): a referrer chain through the deprecated artifact-manifest kind kept by GC,
+// and a delete whose cascade reaches one node along two paths.
+func ociCorpus() []ociCorpusCase {
+	var out []ociCorpusCase
+	pushAllOps := func(u *Universe) []forcedOp {
+		var ops []forcedOp
+		for _, n := range u.Nodes {
+			ops = append(ops, forcedOp{op: "push", n: n.ID})
+		}
+		return ops
+	}
+	{
+		u := NewUniverse()
+		cfg := u.AddBlob(ocispec.MediaTypeImageConfig, []byte(`{"corpus":"artifact-chain"}`))
+		layer := u.AddBlob(ocispec.MediaTypeImageLayer, []byte("corpus-layer"))
+		img := u.AddImage(KOCIManifest, cfg.ID, []int{layer.ID}, -1, "", map[string]string{"k": "img"})
+		sb := u.AddBlob("application/vnd.verif.sbom", []byte("corpus-sbom"))
+		art := u.AddArtifact([]int{sb.ID}, img.ID, "application/vnd.verif.sbom", map[string]string{"k": "art"})
+		sigb := u.AddBlob("application/vnd.verif.sig", []byte("corpus-sig"))
+		u.AddImage(KOCIManifest, cfg.ID, []int{sigb.ID}, art.ID, "application/vnd.verif.sig", map[string]string{"k": "sig"})
+		u.AddBlob("application/vnd.verif.data", []byte("corpus-garbage"))
+		ops := append(pushAllOps(u), forcedOp{op: "tag", n: img.ID, ref: "t0"}, forcedOp{op: "gc"}, forcedOp{op: "gc"})
+		out = append(out, ociCorpusCase{u, ops})
+	}
+	{
+		u := NewUniverse()
+		cfg := u.AddBlob(ocispec.MediaTypeImageConfig, []byte(`{"corpus":"diamond-cascade"}`))
+		la := u.AddBlob(ocispec.MediaTypeImageLayer, []byte("corpus-la"))
+		g := u.AddImage(KOCIManifest, cfg.ID, []int{la.ID}, -1, "", map[string]string{"k": "g"})
+		lb := u.AddBlob(ocispec.MediaTypeImageLayer, []byte("corpus-lb"))
+		h := u.AddImage(KOCIManifest, cfg.ID, []int{lb.ID}, g.ID, "application/vnd.verif.h", map[string]string{"k": "h"})
+		lx := u.AddBlob(ocispec.MediaTypeImageLayer, []byte("corpus-lx"))
+		x := u.AddImage(KOCIManifest, cfg.ID, []int{lx.ID}, h.ID, "application/vnd.verif.x", map[string]string{"k": "x"})
+		u.AddIndex(KOCIIndex, []int{x.ID}, g.ID, "application/vnd.verif.y", map[string]string{"k": "y"})
+		lk := u.AddBlob(ocispec.MediaTypeImageLayer, []byte("corpus-lk"))
+		k := u.AddImage(KOCIManifest, cfg.ID, []int{lk.ID}, -1, "", map[string]string{"k": "keep"})
+		ops := append(pushAllOps(u), forcedOp{op: "tag", n: g.ID, ref: "t0"}, forcedOp{op: "tag", n: k.ID, ref: "t1"}, forcedOp{op: "delete", n: g.ID})
+		out = append(out, ociCorpusCase{u, ops})
+	}
+	return out
 }
